@@ -51,6 +51,7 @@ type lockManager interface {
 type sessionManager interface {
 	CreateSession(string)
 	DestroySession(string) []cl.Lock
+	DestroySessionIfEmpty(string) bool
 	AddLock(name string, key string, size int32, sessionId string)
 	RemoveLock(name string, key string, sessionId string)
 	Load() (map[string][]cl.Lock, error)
